@@ -27,8 +27,14 @@ type Server struct {
 	wg     sync.WaitGroup
 	// Received counts datagrams received.
 	Received atomic.Int64
-	// Jitter, when non-nil, returns an extra delay per reply.
-	Jitter func() time.Duration
+	jitter func() time.Duration
+}
+
+// SetJitter installs a function returning an extra delay per reply.
+func (s *Server) SetJitter(f func() time.Duration) {
+	s.mu.Lock()
+	s.jitter = f
+	s.mu.Unlock()
 }
 
 func Listen(b *refbmc.BMC) (*Server, error) {
@@ -71,14 +77,15 @@ func (s *Server) loop() {
 		s.n++
 		k := s.n
 		f := s.fault
+		jit := s.jitter
 		s.mu.Unlock()
 		out := [][]byte{reply}
 		var delay time.Duration
 		if f != nil {
 			out, delay = f(k, req, reply)
 		}
-		if s.Jitter != nil {
-			delay += s.Jitter()
+		if jit != nil {
+			delay += jit()
 		}
 		send := func() {
 			for _, o := range out {
